@@ -89,7 +89,10 @@ func runC05(tier string, seed int64, si, sn int, rep *monitor.Report, note func(
 			sig += ":from-zero"
 		}
 		rep.Covered(P, sig)
-		if delta < min {
+		if delta < min && delta >= 1 && oracle.WithinFloatResolution(big.NewInt(cpuReq), big.NewInt(memReq), big.NewInt(cpuNode), big.NewInt(memNode), t, U+delta) {
+			// the shortfall is below what float64 can resolve (relative 1e-12): the same tolerance as at the band edges
+			rep.DC(P, "insufficient by less than 1e-12 relative (float64 resolution)")
+		} else if delta < min {
 			rep.Violate(P, "arith-insufficient:"+bound, "U=%d node=(%dm,%dB) threshold=%d%% requests=(%dm,%dB): delta %d, but %d nodes are needed in total (%d more) to sit at or below the threshold", U, cpuNode, memNode, t, cpuReq, memReq, delta, need, min)
 		} else if delta > min+1 {
 			rep.Violate(P, "arith-excess:"+bound, "U=%d node=(%dm,%dB) threshold=%d%% requests=(%dm,%dB): delta %d, more than one above the %d needed", U, cpuNode, memNode, t, cpuReq, memReq, delta, min)
